@@ -310,7 +310,7 @@ def _pool_case(cfg, values):
         kind = {'Pool': 'generic', 'PGPool': 'postgres'}.get(cfg['pool'], 'sqlite')
         p = _mk_provider(kind, cfg['pool'].endswith('memory'), st)
         pool = p.pool
-        con = FakeCon(0, (psycopg2.OperationalError,) if kind == 'postgres' else DBERR); st['cons'].append(con); pool.con = con
+        con = FakeCon(0, (psycopg2.OperationalError,) if kind == 'postgres' else DBERR); st['cons'].append(con); pool.con = con; pool.pid = __import__('os').getpid()          # as Pool.connect leaves it: the connection was opened by this process (one of another process is C36's subject)
         st['pool'] = pool; st['con'] = con
         getattr(pool, cfg['op'])(*(() if cfg['op'] == 'disconnect' else (con,)))
         return 'done'
